@@ -15,7 +15,7 @@ Out(C) ==
                          [] truth \in {"pinf", "both"} -> GridInfeasible(C.P)
                          [] OTHER -> TRUE,
               failed |-> [i \in DOMAIN C.obs |-> IF C.judged[i] THEN SetToSeq(Failed(truth, C.obs[i])) ELSE <<>>],
-              same |-> SameResult(C.obs, C.judged)]
+              same |-> SameResult(C.obs, C.judged, truth)]
 ASSUME JsonSerialize(IOEnv.OUT_FILE, [res |-> [i \in 1..Len(Cases) |-> Out(Cases[i])]])
 
 VARIABLE dummy
